@@ -56,6 +56,81 @@ def run_guarded(fn, seconds):
         signal.signal(signal.SIGALRM, old)
 
 
+# ------------------------------------------------------------------ results of separate calls must not share state
+
+EDITED = "<edited by the caller>"
+
+
+def typed(v):
+    """comparable form of a value: tuples and lists stay distinct, bool and int stay distinct"""
+    if isinstance(v, (list, tuple)):
+        return (type(v).__name__, tuple(typed(x) for x in v))
+    if isinstance(v, dict):
+        return ("dict", tuple(sorted((repr(k), typed(x)) for k, x in v.items())))
+    if isinstance(v, (set, frozenset)):
+        return (type(v).__name__, tuple(sorted(repr(x) for x in v)))
+    return (type(v).__name__, v)
+
+
+def mutate_deep(v):
+    """What a caller may do with a value it was handed: every mutable container reachable from `v` (lists, dicts, sets;
+    looked for through tuples too) is edited IN PLACE as much as its type allows -- scalar entries overwritten, the order
+    reversed, an entry appended.  Returns the number of containers edited (0: nothing mutable in there)."""
+    n = 0
+    if isinstance(v, list):
+        for x in v:
+            n += mutate_deep(x)
+        for i, x in enumerate(v):
+            if not isinstance(x, (list, tuple, dict, set)):
+                v[i] = EDITED
+        v.reverse()
+        v.append(EDITED)
+        return n + 1
+    if isinstance(v, tuple):
+        for x in v:
+            n += mutate_deep(x)
+        return n
+    if isinstance(v, dict):
+        for x in list(v.values()):
+            n += mutate_deep(x)
+        for k in list(v):
+            if not isinstance(v[k], (list, tuple, dict, set)):
+                v[k] = EDITED
+        v[EDITED] = EDITED
+        return n + 1
+    if isinstance(v, set):
+        v.add(EDITED)
+        return 1
+    return n
+
+
+def alias_probe(call, secs=5, first=None):
+    """Results of separate calls are separate values: call() -> the caller edits the returned value in place
+    (mutate_deep) -> call() again with the same arguments must return what the first call returned BEFORE the edit.
+    `first` = the ('ret', value) outcome of a call already made (it is consumed: its value is edited).
+    Returns None if fine (or nothing to probe), else a text describing the difference."""
+    import copy
+    o1 = first if first is not None else run_guarded(call, secs)
+    if o1[0] != "ret" or o1[1] is None:
+        return None
+    v1 = o1[1]
+    try:
+        snap = copy.deepcopy(v1)
+    except Exception:  # noqa: a value that cannot be copied is not probed
+        return None
+    if mutate_deep(v1) == 0:
+        return None
+    o2 = run_guarded(call, secs)
+    if o2[0] != "ret":
+        return ("the first call returned %r; after the caller edited that value in place the same call %s"
+                % (snap, "raises " + o2[1] if o2[0] == "err" else "does not return"))
+    if typed(o2[1]) != typed(snap):
+        shared = " (it is the very object the first call returned)" if o2[1] is v1 else ""
+        return ("the first call returned %r; after the caller edited that value in place the same call returns %r%s"
+                % (snap, o2[1], shared))
+    return None
+
+
 # ------------------------------------------------------------------ values / strings <-> s-expressions
 
 def cps(s):
@@ -434,9 +509,192 @@ def all_partitions(h, w):
 SPECIAL_INTS = [0, 1, 2, 9, 10, 14, 15, 16, 17, 35, 36, 255, 256, 257, 4095, 4096, -1, -2]
 
 
-def gen_item_term(rng, depth):
-    """AST of a combinator working on plain int items (possibly runs of them)."""
+_B36 = "0123456789abcdefghijklmnopqrstuvwxyz"
+
+
+def lead_chars(ast):
+    """The set of characters a text produced by the term can start with / its decoder can accept as the first character
+    (an over-approximation for ASCII texts), or None if the text may be empty or the set is not known.  Two alternatives
+    of a OneOf with disjoint sets are distinguishable by their leading character."""
+    k = ast[0]
+    if k == "fixstr":
+        return {ast[1][0]} if ast[1] else None
+    if k == "dict":
+        if not ast[2] or any((not isinstance(a, str)) or a == "" for a in ast[2]):
+            return None
+        return {a[0] for a in ast[2]}
+    if k == "spaces":
+        if not (isinstance(ast[2], str) and len(ast[2]) == 1 and ast[2] in _B36):
+            return None
+        return set(_B36[max(0, _B36.index(ast[2])):]) if ast[2] != "0" else set(_B36)
+    if k == "hexint":
+        return set("0123456789abcdef-+")
+    if k == "decint":
+        return set("0123456789")
+    if k == "intspaces":
+        return set(_B36[:max(0, min(36, (ast[2] + 1) * (ast[3] + 1)))]) or None
+    if k == "multidigit":
+        return set(_B36[:max(0, min(36, ast[1] ** ast[2]))]) if ast[2] >= 1 and ast[1] >= 1 else None
+    if k == "oneof":
+        out = set()
+        for a in ast[1]:
+            l = lead_chars(a)
+            if l is None:
+                return None
+            out |= l
+        return out or None
+    if k == "tupl":
+        return lead_chars(ast[1][0]) if ast[1] else None
+    if k == "seq":
+        return lead_chars(ast[1]) if ast[2] >= 1 else None
+    if k == "grid":
+        return lead_chars(ast[1]) if ast[2] is not None and ast[2][0] * ast[2][1] >= 1 else None
+    return None
+
+
+def term_py(ast):
+    """Python source text that builds the term (names of cspuz.problem_serializer)."""
+    k = ast[0]
+    if k == "fixstr":
+        return "FixStr(%r)" % (ast[1],)
+    if k == "dict":
+        return "Dict(%r,%r)" % (list(ast[1]), list(ast[2]))
+    if k == "spaces":
+        return "Spaces(%r,%r)" % (ast[1], ast[2])
+    if k == "decint":
+        return "DecInt()"
+    if k == "hexint":
+        return "HexInt()"
+    if k == "intspaces":
+        return "IntSpaces(%r,%d,%d)" % (ast[1], ast[2], ast[3])
+    if k == "multidigit":
+        return "MultiDigit(%d,%d)" % (ast[1], ast[2])
+    if k in ("oneof", "tupl"):
+        return "%s(%s)" % ("OneOf" if k == "oneof" else "Tupl", ",".join(term_py(a) for a in ast[1]))
+    if k == "seq":
+        return "Seq(%s,%d)" % (term_py(ast[1]), ast[2])
+    if k == "grid":
+        return "Grid(%s)" % term_py(ast[1]) if ast[2] is None else "Grid(%s,height=%d,width=%d)" % (term_py(ast[1]), ast[2][0], ast[2][1])
+    if k == "rooms":
+        return "Rooms(skip_on_error=%r,allow_redundant_border=%r)" % (bool(ast[1]), bool(ast[2]))
+    if k == "vrooms":
+        return "ValuedRooms(%s,skip_on_error=%r,allow_redundant_border=%r)" % (term_py(ast[1]), bool(ast[2]), bool(ast[3]))
+    if k == "yajilin":
+        return "YajilinClue()"
+    raise ValueError(ast)
+
+
+SCALAR_KINDS = ("dict", "spaces", "hexint", "decint", "intspaces", "multidigit", "yajilin")
+_TOKENS = [".", "_", "A", "B", "F", "G", "Z", "/", ":", "?", "Ab", "Zz", "X", "Y", "K", "L", "W"]
+
+
+def _mixed_alt(rng, kind, depth):
+    """one alternative of a mixed-kind OneOf: kind in scalar-dict / tuple-dict / list-dict / spaces / hexint / tupl / seq / grid"""
+    def tok_dict(before_pool, n=None):
+        n = n or rng.randint(1, 2)
+        return ("dict", rng.sample(before_pool, n), rng.sample(_TOKENS, n))
+
+    def item(d):
+        """a sub-term on plain scalar items with a leading alphabet of its own"""
+        r = rng.random()
+        if r < 0.35:
+            return ("hexint",)
+        if r < 0.7:
+            return tok_dict([-1, 0, 1, 2, 7, None, "x", "wall"])
+        if r < 0.8:
+            return ("decint",)
+        if r < 0.9 or d <= 0:
+            return ("oneof", [("spaces", rng.choice([0, -1]), rng.choice("ghijk")), ("hexint",)])
+        return _mixed_alt(rng, rng.choice(["tupl", "seq"]), d - 1)
+
+    if kind == "scalar-dict":
+        return tok_dict([-1, 0, 1, 5, 16, None, "x", "wall"])
+    if kind == "tuple-dict":        # hashable non-scalar values
+        # (components that are sequences themselves: a Tupl alternative handed such a value passes them on to its elements;
+        # a scalar component handed to a FixStr element is outside the model, FixStr never looks at it)
+        return tok_dict([((0,), (1,)), ((1,), (0,)), (), ((),), ((3, 4), (2,))])
+    if kind == "list-dict":         # values that cannot be hashed (what Seq / Grid / Rooms items are)
+        return tok_dict([[0, 0], [0, 1], [], [[1]], ([1], [2])])
+    if kind == "spaces":
+        return ("spaces", rng.choice([0, -1, None]), rng.choice("ghijkmsz"))
+    if kind == "hexint":
+        return ("hexint",)
+    if kind == "tupl":
+        els = [item(depth - 1) for _ in range(rng.randint(1, 2))]
+        if rng.random() < 0.5:
+            els.insert(0, ("fixstr", rng.choice(["/", ":", "?", "_", "T"])))
+        if rng.random() < 0.2:
+            els.append(("seq", ("hexint",), rng.randint(0, 2)))
+        return ("tupl", els)
+    if kind == "seq":
+        return ("seq", item(depth - 1), rng.randint(1, 3))
+    if kind == "grid":
+        return ("grid", item(depth - 1), rng.choice([(1, 1), (1, 2), (2, 1), (2, 2), None, (1, 3)]))
+    raise ValueError(kind)
+
+
+def gen_mixed_oneof(rng, depth, safe=False):
+    """OneOf whose alternatives take values of DIFFERENT KINDS (a scalar, a tuple, a list, a list of rows), mostly with
+    pairwise different leading characters, mostly with the table look-ups (Dict) and scalar tests in front of the
+    alternatives for non-scalar values: every alternative is handed the items meant for the later ones.
+    safe=True: only OneOfs whose alternatives have disjoint value domains apart from the tables in front (tables and
+    scalars first, then at most one Tupl, then at most one Seq or Grid; all leading characters different), so that a
+    decoded value is re-encoded by the alternative that decoded it or by a table holding that very value."""
+    scalar = ["scalar-dict", "scalar-dict", "tuple-dict", "list-dict", "spaces", "hexint"]
+    if safe:
+        kinds = [rng.choice(scalar) for _ in range(rng.choice([1, 1, 2]))]
+        r = rng.random()
+        if r < 0.75:
+            kinds.append("tupl")
+        if r > 0.4:
+            kinds.append(rng.choice(["seq", "seq", "grid"]))
+    else:
+        kinds = [rng.choice(scalar), rng.choice(["tupl", "tupl", "seq", "seq", "grid"])]
+        for _ in range(rng.choice([0, 0, 1, 1, 2])):
+            kinds.append(rng.choice(["scalar-dict", "tuple-dict", "list-dict", "spaces", "hexint", "tupl", "seq", "grid"]))
+    alts, used = [], set()
+    for kd in kinds:
+        for _try in range(8):
+            a = _mixed_alt(rng, kd, depth)
+            l = lead_chars(a)
+            if l is not None and not (l & used):
+                break
+        else:
+            if safe or rng.random() < 0.7:
+                continue        # (the rest: an alternative that is NOT distinguishable, kept on purpose)
+            l = l or set()
+        alts.append(a)
+        used |= l
+    if not safe:
+        r = rng.random()
+        if r < 0.15:
+            rng.shuffle(alts)
+        elif r < 0.3:
+            alts.reverse()
+    return ("oneof", alts)
+
+
+def gen_mixed_term(rng, depth, safe=False):
+    """a mixed-kind OneOf, bare or as the base of Seq / Grid / ValuedRooms or as a Tupl element"""
+    m = gen_mixed_oneof(rng, depth, safe)
     r = rng.random()
+    if r < 0.2:
+        return m
+    if r < 0.6:
+        return ("seq", m, rng.randint(1, 5))
+    if r < 0.75:
+        return ("grid", m, (rng.randint(1, 3), rng.randint(1, 3)) if rng.random() < 0.6 else None)
+    if r < 0.9:
+        return ("tupl", [m] + [("fixstr", "/"), ("hexint",)][:rng.randint(0, 2)])
+    return ("vrooms", m, rng.random() < 0.4, rng.random() < 0.3)
+
+
+def gen_item_term(rng, depth, mixed="safe"):
+    """AST of a combinator working on plain int items (possibly runs of them).  mixed: "safe" / "any" / None -- which OneOfs
+    over alternatives of different value kinds are produced (see gen_mixed_oneof)."""
+    r = rng.random()
+    if depth >= 1 and r < 0.08 and mixed:
+        return gen_mixed_term(rng, depth - 1, safe=(mixed == "safe"))
     if depth <= 0 or r < 0.45:
         k = rng.choice(["hexint", "spaces", "intspaces", "multidigit", "dict", "decint", "oneof-std", "yajilin"])
         if k == "hexint":
@@ -474,23 +732,23 @@ def gen_item_term(rng, depth):
             rng.shuffle(alts)
         return ("oneof", alts)
     if r < 0.6:
-        return ("oneof", [gen_item_term(rng, depth - 1) for _ in range(rng.randint(0, 3))])
+        return ("oneof", [gen_item_term(rng, depth - 1, mixed) for _ in range(rng.randint(0, 3))])
     if r < 0.75:
-        return ("tupl", [gen_any_term(rng, depth - 1) for _ in range(rng.randint(0, 3))])
+        return ("tupl", [gen_any_term(rng, depth - 1, mixed) for _ in range(rng.randint(0, 3))])
     if r < 0.9:
-        return ("seq", gen_item_term(rng, depth - 1), rng.randint(0, 6))
-    return ("grid", gen_item_term(rng, depth - 1), (rng.randint(0, 3), rng.randint(0, 3)) if rng.random() < 0.7 else None)
+        return ("seq", gen_item_term(rng, depth - 1, mixed), rng.randint(0, 6))
+    return ("grid", gen_item_term(rng, depth - 1, mixed), (rng.randint(0, 3), rng.randint(0, 3)) if rng.random() < 0.7 else None)
 
 
-def gen_any_term(rng, depth):
+def gen_any_term(rng, depth, mixed="safe"):
     r = rng.random()
     if r < 0.12:
         return ("rooms", rng.random() < 0.4, rng.random() < 0.3)
     if r < 0.2:
-        return ("vrooms", gen_item_term(rng, min(depth, 1)), rng.random() < 0.4, rng.random() < 0.3)
+        return ("vrooms", gen_item_term(rng, min(depth, 1), mixed), rng.random() < 0.4, rng.random() < 0.3)
     if r < 0.25:
         return ("fixstr", rng.choice(["", "/", "ab", "0", "é\ud800"]))
-    return gen_item_term(rng, depth)
+    return gen_item_term(rng, depth, mixed)
 
 
 def sample_run(rng, ast, h, w, bad=0.0):
